@@ -7,4 +7,10 @@ NsQuick == {{"*"}, {"A"}}
 NsFull == {{"*"}, {"A"}, {"A", "B"}}
 AddrQuick == {"both", "nofrom"}
 AddrFull == {"both", "nofrom", "noto", "none"}
+\* history mode: a few packets of every kind, small matcher alphabet
+HPacketsDef == { [k |-> "message", type |-> "", pns |-> "-", addr |-> "both"], [k |-> "presence", type |-> "", pns |-> "-", addr |-> "both"],
+                 [k |-> "iq", type |-> "get", pns |-> "A", addr |-> "both"], [k |-> "iq", type |-> "result", pns |-> "A", addr |-> "both"] }
+HNames == {"-", "presence", "iq"}
+HTypes == {{"*"}, {"normal"}, {"get"}}
+HNs == {{"*"}, {"A"}}
 ====
